@@ -147,17 +147,32 @@ fn scenario(secp: &Secp256k1<All>, rng: &mut R, max_in: usize, with_issuance: bo
     scenario_with(secp, rng, max_in, with_issuance, rot, None)
 }
 
+/// a fixed scenario layout: input i is of kind `kinds[i]` and belongs to party i % parties, except
+/// input `unowned`, which nobody supplies; `no_explicit`: no explicit outputs and no fee (the inputs
+/// equal the blinded outputs)
+#[derive(Clone)]
+struct Forced {
+    parties: usize,
+    kinds: Vec<Kind>,
+    unowned: Option<usize>,
+    no_explicit: bool,
+}
+fn forced(parties: usize, kinds: Vec<Kind>, unowned: Option<usize>) -> Option<Forced> {
+    Some(Forced { parties, kinds, unowned, no_explicit: false })
+}
+
 /// `rot`: input i is of kind KINDS[(rot + i) % 4] (round robin over the lattice; 1 in 5 random);
 /// `forced`: Some((parties, kinds, unowned)) fixes the number of parties and the kind of every input
 /// (input i belongs to party i % parties, except input `unowned`, which nobody supplies)
-fn scenario_with(secp: &Secp256k1<All>, rng: &mut R, max_in: usize, with_issuance: bool, rot: usize, forced: Option<(usize, Vec<Kind>, Option<usize>)>) -> Scenario {
-    let nassets = rng.gen_range(1..=3usize);
+fn scenario_with(secp: &Secp256k1<All>, rng: &mut R, max_in: usize, with_issuance: bool, rot: usize, forced: Option<Forced>) -> Scenario {
+    let no_explicit = forced.as_ref().map(|f| f.no_explicit).unwrap_or(false);
+    let nassets = if no_explicit { 1 } else { rng.gen_range(1..=3usize) };
     let assets: Vec<AssetId> = (0..nassets).map(|_| gen::asset_id(rng)).collect();
     let mut k = if rng.gen_range(0..3) == 0 { rng.gen_range(1..=max_in) } else { rng.gen_range(3.min(max_in)..=max_in) };
     let mut nparties = if rng.gen_range(0..3) == 0 { k.min(4) } else { rng.gen_range(1..=k.min(4)) };
-    if let Some((np, kinds, _)) = &forced {
-        k = kinds.len();
-        nparties = *np;
+    if let Some(f) = &forced {
+        k = f.kinds.len();
+        nparties = f.parties;
     }
     // surjective assignment of inputs to parties
     let mut party_of: Vec<usize> = (0..k).map(|i| if i < nparties { i } else { rng.gen_range(0..nparties) }).collect();
@@ -172,7 +187,7 @@ fn scenario_with(secp: &Secp256k1<All>, rng: &mut R, max_in: usize, with_issuanc
     for i in 0..k {
         let a = rng.gen_range(0..nassets);
         let kind = match &forced {
-            Some((_, kinds, _)) => kinds[i],
+            Some(f) => f.kinds[i],
             None => if rng.gen_range(0..5) == 0 { KINDS[rng.gen_range(0..4)] } else { KINDS[(rot + i) % 4] },
         };
         let val = in_value(rng);
@@ -180,7 +195,7 @@ fn scenario_with(secp: &Secp256k1<All>, rng: &mut R, max_in: usize, with_issuanc
         ins.push(InSpec { asset: a, sec, kind, party: Some(party_of[i]), utxo });
     }
     // an explicit input owned by nobody: its term is 0, nobody has to supply it (its party keeps another input)
-    if let Some((_, _, Some(u))) = &forced {
+    if let Some(Forced { unowned: Some(u), .. }) = &forced {
         ins[*u].party = None;
     }
     if forced.is_none() && rng.gen_range(0..5) == 0 {
@@ -214,11 +229,11 @@ fn scenario_with(secp: &Secp256k1<All>, rng: &mut R, max_in: usize, with_issuanc
         if !ins.iter().any(|i| i.asset == a) {
             continue;
         }
-        let nexp = match rng.gen_range(0..5) { 0 => 1, 1 => 2, _ => 0 };
+        let nexp = if no_explicit { 0 } else { match rng.gen_range(0..5) { 0 => 1, 1 => 2, _ => 0 } };
         for _ in 0..nexp {
             slots[a].push(None);
         }
-        let with_fee = a == ins[0].asset && rng.gen_range(0..5) != 0;
+        let with_fee = !no_explicit && a == ins[0].asset && rng.gen_range(0..5) != 0;
         if slots[a].is_empty() && !with_fee {
             // nobody takes this asset as a blinded output: one explicit output carries it
             slots[a].push(None);
@@ -375,19 +390,34 @@ fn flags_str(o: &pset::Output) -> String {
         .map(|b| b01(*b))
         .collect()
 }
+/// independent oracle (raw bytes): does the script have an address — p2pkh, p2sh, v0 witness program
+/// of 20 or 32 bytes, witness program v1..v16 of 2..40 bytes
+fn has_address(b: &[u8]) -> bool {
+    let p2pkh = b.len() == 25 && b[0] == 0x76 && b[1] == 0xa9 && b[2] == 0x14 && b[23] == 0x88 && b[24] == 0xac;
+    let p2sh = b.len() == 23 && b[0] == 0xa9 && b[1] == 0x14 && b[22] == 0x87;
+    let v0 = (b.len() == 22 && b[0] == 0 && b[1] == 20) || (b.len() == 34 && b[0] == 0 && b[1] == 32);
+    let v1plus = b.len() >= 4 && (0x51..=0x60).contains(&b[0]) && (2..=40).contains(&b[1]) && b.len() == b[1] as usize + 2;
+    p2pkh || p2sh || v0 || v1plus
+}
+/// independent oracle: `Script::is_provably_unspendable` (OP_RETURN first, longer than 10000 bytes, or empty)
+fn unspendable(b: &[u8]) -> bool {
+    b.is_empty() || b[0] == 0x6a || b.len() > 10_000
+}
+
 fn outs_str(p: &Pset, am: &mut AssetMap) -> String {
     join(
         p.outputs()
             .iter()
             .map(|o| {
                 format!(
-                    "{}:{}:{}:{}:{}:{}",
+                    "{}:{}:{}:{}:{}:{}:{}",
                     opt(o.amount),
                     opt(o.asset.map(|a| am.idx(a))),
                     b01(o.blinding_key.is_some()),
                     opt(o.blinder_index),
-                    b01(Address::from_script(&o.script_pubkey, None, &AddressParams::ELEMENTS).is_some()),
-                    flags_str(o)
+                    b01(has_address(o.script_pubkey.as_bytes())),
+                    flags_str(o),
+                    b01(unspendable(o.script_pubkey.as_bytes()))
                 )
             })
             .collect(),
@@ -1052,6 +1082,276 @@ fn zero_amount_last(out: &mut Out, secp: &Secp256k1<All>, rng: &mut R) {
     }
 }
 
+
+// ---------------------------------------------------------------------------------------------
+// post-processing of a scenario: insert / split outputs, scripts of every address kind, zero outputs
+// ---------------------------------------------------------------------------------------------
+
+/// rebuild the PSET with `po` inserted at output position `pos`
+fn insert_output(sc: &mut Scenario, pos: usize, spec: OutSpec, po: pset::Output) {
+    let mut pset = Pset::new_v2();
+    for i in sc.pset.inputs() {
+        pset.add_input(i.clone());
+    }
+    let mut outs: Vec<pset::Output> = sc.pset.outputs().to_vec();
+    outs.insert(pos, po);
+    for o in outs {
+        pset.add_output(o);
+    }
+    sc.pset = pset;
+    sc.outs.insert(pos, spec);
+}
+
+/// split a blinded output of `party` in two (same owner, same blinder index, fresh receiver key), so
+/// that the party has a non-final and a final output; false if it has no output of amount >= 2
+fn split_output(sc: &mut Scenario, secp: &Secp256k1<All>, rng: &mut R, party: usize) -> bool {
+    let idx = match (0..sc.outs.len()).find(|&i| sc.outs[i].owner == Some(party) && sc.outs[i].amount >= 2) {
+        Some(i) => i,
+        None => return false,
+    };
+    let amt = sc.outs[idx].amount;
+    let a1 = rng.gen_range(1..amt);
+    sc.outs[idx].amount = amt - a1;
+    sc.pset.outputs_mut()[idx].amount = Some(amt - a1);
+    let sk = gen::seckey(rng);
+    let pk = bitcoin::PublicKey { inner: PublicKey::from_secret_key(secp, &sk), compressed: true };
+    let mut po = pset::Output::new_explicit(p2wpkh(rng), a1, sc.assets[sc.outs[idx].asset], Some(pk));
+    po.blinder_index = sc.pset.outputs()[idx].blinder_index;
+    let spec = OutSpec { asset: sc.outs[idx].asset, amount: a1, owner: Some(party), recv_sk: Some(sk) };
+    let pos = rng.gen_range(0..=sc.outs.len());
+    insert_output(sc, pos, spec, po);
+    true
+}
+
+/// a script built from RAW BYTES: `(name, bytes)`
+type Shape = (String, Vec<u8>);
+
+fn witprog(rng: &mut R, ver: u8, len: usize) -> Shape {
+    let mut v = vec![if ver == 0 { 0 } else { 0x50 + ver }, len as u8];
+    v.extend(gen::bytes(rng, len));
+    (format!("wv{}_{}", ver, len), v)
+}
+fn p2pkh_raw(rng: &mut R) -> Shape {
+    let mut v = vec![0x76, 0xa9, 0x14];
+    v.extend(gen::bytes(rng, 20));
+    v.extend([0x88, 0xac]);
+    ("p2pkh".into(), v)
+}
+fn p2sh_raw(rng: &mut R) -> Shape {
+    let mut v = vec![0xa9, 0x14];
+    v.extend(gen::bytes(rng, 20));
+    v.push(0x87);
+    ("p2sh".into(), v)
+}
+
+/// scripts that have an address: p2pkh, p2sh, v0 (20, 32), every witness version 1..16 with standard
+/// and non-standard program lengths
+fn address_shapes(rng: &mut R, thorough: bool) -> Vec<Box<dyn Fn(&mut R) -> Shape>> {
+    let mut v: Vec<Box<dyn Fn(&mut R) -> Shape>> = vec![
+        Box::new(p2pkh_raw),
+        Box::new(p2sh_raw),
+        Box::new(|r| witprog(r, 0, 20)),
+        Box::new(|r| witprog(r, 0, 32)),
+        Box::new(|r| witprog(r, 1, 32)),
+        Box::new(|r| witprog(r, 16, 2)),
+        Box::new(|r| witprog(r, 16, 40)),
+        Box::new(|r| witprog(r, 16, 32)),
+    ];
+    let lens_all = [2usize, 3, 20, 31, 32, 33, 39, 40];
+    for ver in 1..=16u8 {
+        if thorough {
+            for &l in &lens_all {
+                v.push(Box::new(move |r| witprog(r, ver, l)));
+            }
+        } else {
+            // one non-standard length per version, different every run
+            let l = match rng.gen_range(0..4) { 0 => 2, 1 => 40, 2 => rng.gen_range(3..32), _ => rng.gen_range(33..40) };
+            v.push(Box::new(move |r| witprog(r, ver, l)));
+        }
+    }
+    v
+}
+
+/// scripts WITHOUT an address (near misses of the address forms and unrelated scripts)
+fn no_address_shapes(rng: &mut R) -> Vec<Shape> {
+    let named = |n: &str, b: Vec<u8>| (n.to_string(), b);
+    let mut v = vec![];
+    for l in [2usize, 19, 21, 33, 40] {
+        let (n, b) = witprog(rng, 0, l);
+        v.push((format!("noaddr_{}", n), b));
+    }
+    v.push(named("noaddr_wv1_1", { let mut b = vec![0x51, 1]; b.extend(gen::bytes(rng, 1)); b }));
+    v.push(named("noaddr_wv16_41", { let mut b = vec![0x60, 41]; b.extend(gen::bytes(rng, 41)); b }));
+    v.push(named("noaddr_wv16_len_mismatch", { let mut b = vec![0x60, 32]; b.extend(gen::bytes(rng, 31)); b }));
+    v.push(named("noaddr_wv1_trailing", { let mut b = vec![0x51, 32]; b.extend(gen::bytes(rng, 33)); b }));
+    v.push(named("noaddr_op61_ver17", { let mut b = vec![0x61, 20]; b.extend(gen::bytes(rng, 20)); b }));
+    v.push(named("noaddr_op4f_1negate", { let mut b = vec![0x4f, 20]; b.extend(gen::bytes(rng, 20)); b }));
+    v.push(named("noaddr_wv16_pushdata1", { let mut b = vec![0x60, 0x4c, 32]; b.extend(gen::bytes(rng, 32)); b }));
+    v.push(named("noaddr_p2pkh_wrong_tail", { let mut b = p2pkh_raw(rng).1; b[24] = 0xad; b }));
+    v.push(named("noaddr_p2sh_wrong_tail", { let mut b = p2sh_raw(rng).1; b[22] = 0x88; b }));
+    v.push(named("noaddr_p2pk", { let mut b = vec![33]; b.extend(gen::pubkey(rng).serialize()); b.push(0xac); b }));
+    v.push(named("noaddr_op_return", vec![0x6a, 0x01, 0x00]));
+    v.push(named("noaddr_empty", vec![]));
+    v.push(named("noaddr_random", gen::bytes(rng, 7)));
+    v
+}
+
+/// (1) output scripts of every address kind in every party role. Two parties; party 1 gets a second
+/// output; ALL blinded outputs carry a script of the shape; both orders (so every output is blinded once
+/// by a non-last party through `blind_non_last`, once as a non-final output of the last party through
+/// the inner `blind_non_last`, or as its final output through `blind_last`) plus the flow without hops.
+/// `check_honest` then demands: flow succeeds, extracted tx verifies (the range proof commits to the
+/// script), the receiver unblinds.
+fn script_scenarios(out: &mut Out, secp: &Secp256k1<All>, rng: &mut R, thorough: bool) -> usize {
+    let mut flows = 0;
+    let shapes = address_shapes(rng, thorough);
+    for (n, mk) in shapes.iter().enumerate() {
+        let kinds = vec![KINDS[n % 4], KINDS[(n + 1) % 4]];
+        let mut sc = scenario_with(secp, rng, 2, false, 0, forced(2, kinds, None));
+        let split_ok = split_output(&mut sc, secp, rng, 1) || split_output(&mut sc, secp, rng, 0);
+        let mut name = String::new();
+        for i in 0..sc.outs.len() {
+            if sc.outs[i].owner.is_some() {
+                let (nm, bytes) = mk(rng);
+                let script = Script::from(bytes.clone());
+                // the address machinery on this script, judged against the raw-byte oracle
+                let addr = Address::from_script(&script, None, &AddressParams::ELEMENTS);
+                out.s("address_oracle_agrees", addr.is_some() == has_address(&bytes), || format!("script {}", hex(&bytes)));
+                out.s("address_script_roundtrip", addr.as_ref().map(|a| a.script_pubkey() == script).unwrap_or(false), || format!("script {}", hex(&bytes)));
+                sc.pset.outputs_mut()[i].script_pubkey = script;
+                name = nm;
+            }
+        }
+        out.count(&format!("script.{}", name));
+        // roles: with two parties and both orders every owner is last once and non-last once
+        for i in 0..sc.outs.len() {
+            if let Some(p) = sc.outs[i].owner {
+                let final_of_p = (0..sc.outs.len()).filter(|&j| sc.outs[j].owner == Some(p)).max() == Some(i);
+                out.count(&format!("script_role.{}.nonlast_party", name));
+                out.count(&format!("script_role.{}.{}", name, if final_of_p { "last_final(blind_last)" } else { "last_nonfinal(blind_non_last)" }));
+            }
+        }
+        if !split_ok {
+            out.count("script.split_impossible");
+        }
+        flows += one_scenario(out, secp, rng, &sc, 6);
+    }
+    // scripts without an address: `blind_non_last` must give the documented error (InvalidAddress), not a
+    // panic; `blind_last` does not need an address and must produce a verifying, unblindable output
+    for (name, bytes) in no_address_shapes(rng) {
+        let script = Script::from(bytes.clone());
+        let addr = Address::from_script(&script, None, &AddressParams::ELEMENTS);
+        out.s("address_oracle_agrees", addr.is_some() == has_address(&bytes), || format!("script {}", hex(&bytes)));
+        out.count(&format!("script.{}", name));
+        // non-last step of a two-party scenario
+        let mut sc = scenario_with(secp, rng, 2, false, 0, forced(2, vec![Kind::CC, Kind::CE], None));
+        for i in 0..sc.outs.len() {
+            if sc.outs[i].owner.is_some() {
+                sc.pset.outputs_mut()[i].script_pubkey = script.clone();
+            }
+        }
+        let mut am = AssetMap(sc.assets.clone());
+        let mut pset = sc.pset.clone();
+        let mut prng = R::seed_from_u64(sc.party_seed[0]);
+        let (r, _) = real_step(out, secp, false, &mut pset, &sc.supplied(0), &mut prng, &mut am);
+        out.s("script_without_address_is_the_documented_error", r == Err("Address".to_string()), || format!("script {} result {:?}", hex(&bytes), r.as_ref().map(|_| ())));
+        out.count(&format!("script_role.{}.nonlast.{}", name, match &r { Ok(_) => "ok".to_string(), Err(t) => t.clone() }));
+        // single party, single blinded output: `blind_last` only
+        let kd = KINDS[rng.gen_range(0..4)];
+        let mut sc = scenario_with(secp, rng, 1, false, 0, forced(1, vec![kd], None));
+        // only the party's FINAL output gets the script: the others go through the inner `blind_non_last`
+        if let Some(fin) = (0..sc.outs.len()).filter(|&i| sc.outs[i].owner.is_some()).max() {
+            sc.pset.outputs_mut()[fin].script_pubkey = script.clone();
+            out.count(&format!("script_role.{}.last_final(blind_last)", name));
+            flows += one_scenario(out, secp, rng, &sc, 6);
+        }
+    }
+    flows
+}
+
+#[derive(Clone, Copy, Debug, PartialEq)]
+enum Zero {
+    /// fee output: empty script, value 0
+    Fee,
+    /// OP_RETURN script, value 0
+    OpReturn,
+    /// script longer than MAX_SCRIPT_SIZE (10000 bytes), value 0
+    Long,
+    /// value 0 on an ordinary spendable script: `verify_tx_amt_proofs` rejects (NonUnspendableZeroValue)
+    Spendable,
+}
+impl Zero {
+    fn name(self) -> &'static str {
+        match self { Zero::Fee => "fee0", Zero::OpReturn => "opreturn0", Zero::Long => "long0", Zero::Spendable => "spendable0" }
+    }
+}
+
+/// add an explicit output of amount exactly 0 at a random position
+fn add_zero_output(sc: &mut Scenario, rng: &mut R, z: Zero) {
+    let a = rng.gen_range(0..sc.assets.len());
+    let po = match z {
+        Zero::Fee => pset::Output::from_txout(TxOut::new_fee(0, sc.assets[a])),
+        Zero::OpReturn => {
+            let mut b = vec![0x6a];
+            let n = rng.gen_range(0..40usize);
+            if n > 0 {
+                b.push(n as u8);
+                b.extend(gen::bytes(rng, n));
+            }
+            pset::Output::new_explicit(Script::from(b), 0, sc.assets[a], None)
+        }
+        Zero::Long => {
+            let n = 10_001 + rng.gen_range(0..50usize);
+            pset::Output::new_explicit(Script::from(vec![0x51u8; n]), 0, sc.assets[a], None)
+        }
+        Zero::Spendable => pset::Output::new_explicit(p2wpkh(rng), 0, sc.assets[a], None),
+    };
+    let pos = rng.gen_range(0..=sc.outs.len());
+    insert_output(sc, pos, OutSpec { asset: a, amount: 0, owner: None, recv_sk: None }, po);
+}
+
+/// (2) explicit outputs of amount exactly 0 in every split / order of blinders
+fn zero_scenarios(out: &mut Out, secp: &Secp256k1<All>, rng: &mut R) -> usize {
+    let mut flows = 0;
+    for (n, z) in [Zero::Fee, Zero::OpReturn, Zero::Long].iter().enumerate() {
+        // three parties, all orders; the zero fee variant has no other explicit output and no other fee:
+        // the inputs equal the blinded outputs
+        let kinds = vec![KINDS[n % 4], KINDS[(n + 1) % 4], KINDS[(n + 2) % 4], KINDS[(n + 3) % 4]];
+        let f = Forced { parties: 3, kinds, unowned: None, no_explicit: *z == Zero::Fee };
+        let mut sc = scenario_with(secp, rng, 4, false, 0, Some(f));
+        add_zero_output(&mut sc, rng, *z);
+        out.count(&format!("zero.{}", z.name()));
+        out.count(&format!("zero.{}.deterministic_3_parties", z.name()));
+        flows += one_scenario(out, secp, rng, &sc, 6);
+        // single party
+        let mut sc = scenario_with(secp, rng, 1, false, 0, forced(1, vec![KINDS[(n + 1) % 4]], None));
+        add_zero_output(&mut sc, rng, *z);
+        out.count(&format!("zero.{}", z.name()));
+        out.count(&format!("zero.{}.single_party", z.name()));
+        flows += one_scenario(out, secp, rng, &sc, 6);
+    }
+    // all three accepted shapes at once
+    let mut sc = scenario_with(secp, rng, 3, false, 0, forced(2, vec![Kind::CE, Kind::CC, Kind::EC], None));
+    for z in [Zero::Long, Zero::Fee, Zero::OpReturn] {
+        add_zero_output(&mut sc, rng, z);
+        out.count(&format!("zero.{}", z.name()));
+    }
+    out.count("zero.all_three");
+    flows += one_scenario(out, secp, rng, &sc, 6);
+    // what the unchanged code rejects: value 0 on a spendable script. Blinding works, verification refuses.
+    let mut sc = scenario_with(secp, rng, 2, false, 0, forced(2, vec![Kind::CC, Kind::CE], None));
+    add_zero_output(&mut sc, rng, Zero::Spendable);
+    out.count("zero.spendable0");
+    for order in [vec![Who::NonLast(0), Who::Last(1)], vec![Who::NonLast(1), Who::Last(0)]] {
+        let fr = run_flow(out, secp, &sc, &order, true);
+        flows += 1;
+        out.s("zero_on_spendable_script: blinding succeeds", fr.ok && fr.full && fr.empty, || format!("order {:?}", order));
+        out.s("zero_on_spendable_script: verification rejects", !fr.verify, || format!("order {:?} pset {}", order, hex(&serialize(&fr.pset))));
+        out.count(if fr.verify { "zero.spendable0.verifies" } else { "zero.spendable0.rejected" });
+    }
+    flows
+}
+
 /// every UTXO kind of the (asset, amount) lattice as the owned input of a single party, of the last
 /// party and of a non-last party (all orders), deterministically at the start of every run.
 /// (Seeded change C09-w2m1: dropping inputs with vbf = 0 from `inp_secrets` loses the term
@@ -1060,11 +1360,11 @@ fn lattice_scenarios(out: &mut Out, secp: &Secp256k1<All>, rng: &mut R) -> usize
     let mut flows = 0;
     for (j, kind) in KINDS.iter().enumerate() {
         // one party, one input
-        let sc = scenario_with(secp, rng, 1, false, 0, Some((1, vec![*kind], None)));
+        let sc = scenario_with(secp, rng, 1, false, 0, forced(1, vec![*kind], None));
         flows += one_scenario(out, secp, rng, &sc, 6);
         // two parties: party 0 owns this kind, party 1 the next one; both orders
         let other = KINDS[(j + 1) % 4];
-        let sc = scenario_with(secp, rng, 2, false, 0, Some((2, vec![*kind, other], None)));
+        let sc = scenario_with(secp, rng, 2, false, 0, forced(2, vec![*kind, other], None));
         flows += one_scenario(out, secp, rng, &sc, 6);
         if j % 2 == 0 {
             flows += negative_controls(out, secp, rng, &sc);
@@ -1072,7 +1372,7 @@ fn lattice_scenarios(out: &mut Out, secp: &Secp256k1<All>, rng: &mut R) -> usize
     }
     // a party whose inputs are all EE next to parties with mixed kinds (3 parties, 6 inputs), and an
     // explicit input that nobody supplies (input 3; its party 0 keeps input 0)
-    let sc = scenario_with(secp, rng, 6, false, 0, Some((3, vec![Kind::EE, Kind::CE, Kind::EC, Kind::EE, Kind::CC, Kind::CE], Some(3))));
+    let sc = scenario_with(secp, rng, 6, false, 0, forced(3, vec![Kind::EE, Kind::CE, Kind::EC, Kind::EE, Kind::CC, Kind::CE], Some(3)));
     flows += one_scenario(out, secp, rng, &sc, 6);
     flows
 }
@@ -1088,16 +1388,44 @@ pub fn run(rng: &mut R, out: &mut Out) {
     let budget = if thorough { 1500 } else { 95 };
     let mut flows = lattice_scenarios(out, &secp, rng);
     out.count_n("flows.lattice", flows as u64);
+    let fs = script_scenarios(out, &secp, rng, thorough);
+    out.count_n("flows.scripts", fs as u64);
+    let fz = zero_scenarios(out, &secp, rng);
+    out.count_n("flows.zero", fz as u64);
     let mut n = 0;
     while flows < budget {
         let max_in = if n % 4 == 0 { 6 } else { 5 };
-        let sc = scenario(&secp, rng, max_in, n % 3 == 1);
+        let mut sc = scenario(&secp, rng, max_in, n % 3 == 1);
+        // explicit zero outputs of the accepted shapes in every second random scenario
+        if n % 2 == 1 {
+            let z = [Zero::Fee, Zero::OpReturn, Zero::Long][(n / 2) % 3];
+            add_zero_output(&mut sc, rng, z);
+            out.count(&format!("zero.{}", z.name()));
+            out.count(&format!("zero.{}.random_scenario", z.name()));
+        }
+        // output scripts of the random scenarios: every address kind
+        for i in 0..sc.outs.len() {
+            if sc.outs[i].owner.is_some() && rng.gen_range(0..2) == 0 {
+                let (nm, bytes) = match rng.gen_range(0..5) {
+                    0 => p2pkh_raw(rng),
+                    1 => p2sh_raw(rng),
+                    2 => witprog(rng, 0, 32),
+                    _ => {
+                        let ver = rng.gen_range(1..=16u8);
+                        let len = rng.gen_range(2..=40usize);
+                        witprog(rng, ver, len)
+                    }
+                };
+                sc.pset.outputs_mut()[i].script_pubkey = Script::from(bytes);
+                out.count(&format!("script.random_scenario.{}", nm.split('_').next().unwrap_or("")));
+            }
+        }
         flows += one_scenario(out, &secp, rng, &sc, if thorough { 24 } else { 6 });
         if n % 2 == 0 {
             flows += negative_controls(out, &secp, rng, &sc);
         }
         n += 1;
     }
-    out.count_n("flows", flows as u64);
+    out.count_n("flows", (flows + fs + fz) as u64);
     out.count_n("scenarios", n as u64);
 }
